@@ -411,6 +411,15 @@ def run_shard(spec):
         rnd = random.Random("%s/C18/%s/%s" % (spec["seed"], mode, spec["rep"]))
         g = QGen(rnd, allow_fail=True, allow_volatile=True, allow_mutators=True, max_len=5)
         g.avoid_none_default = True
+        # fixed queries first (what the random draws below reach only now and then): non-canonical spellings whose last
+        # action fails, also downstream of a volatile step and after the failing command ran a sub-query; long tails
+        # after a failure; labels given inside the pipeline; namespace shadowing
+        for q in ["lit-%41/cat-x~.y/boom", "lit-a%20b/needs", "one/vol/cat-%7Ex/sub-one~Iboom", "one/add-%31/add-x", "one/vol/needs",
+                  "lit-%41/vol/sub-nosuchcmd", "one/boom/ident/cat-a/ident/cat-b/ident/cat-c", "lit-a/nosuchcmd/ident/ident/ident/ident/ident/ident",
+                  "one/filename-w.txt/ident/y.json", "one/ns-alt/add-2", "one/ns-root-alt/add", "lit-a/attr_camel/ident", "lit-a/attr_up/num/cat-x",
+                  "lit-a/cat-~X~cat-b~E/ident", "one/sub-one~Iadd~_2/ident"]:
+            env.count("fixed_queries")
+            handle(mode, q)
         for _ in range(spec["n"]):
             q = g.top()
             if rnd.random() < 0.04:
